@@ -86,12 +86,58 @@ def run_non_string_keys(ctx):
                 return
 
 
+def run_long_arrays(ctx):
+    """`in` / `contains` against long arrays (lengths around 64, 256, 1000) that come and go: document after document of
+    the same shape and length, each dropped and garbage-collected before the next is built (so that the interpreter hands
+    out the same addresses again), and one array rewritten in place between queries. Expected: plain Python membership."""
+    import gc
+
+    import jsonpath
+
+    queries = [("$.items[?@ in $.allowed]", False), ("$.items[?$.allowed contains @]", False), ("$.items[?@ in _.allowed]", True), ("$..[?@ in $.allowed && @ >= 0]", False), ("^[?# == 0].items[?@ in $.allowed]", False)]
+    compiled = {t: jsonpath.compile(t) for t, _c in queries}
+    for n in (63, 64, 65, 100, 256, 1000):
+        for k in range(12):
+            allowed = list(range(k * n, k * n + n))
+            items = [k * n + 5, (k + 1) * n + 5, (k - 1) * n + 5, k * n, k * n + n - 1, -1, "x"]
+            doc = {"allowed": allowed, "items": items}
+            for text, uses_ctx in queries:
+                fctx = {"allowed": list(allowed)} if uses_ctx else None
+                want = [x for x in items if x in allowed] if "^" not in text and ".." not in text else None
+                if text.startswith("$.."):
+                    want = [x for x in allowed if x >= 0] + [x for x in items if isinstance(x, int) and x in allowed and x >= 0]
+                if text.startswith("^"):
+                    want = [x for x in items if x in allowed]
+                for route, fn in (("findall(text)", lambda: jsonpath.findall(text, doc, filter_context=fctx)), ("compiled", lambda: compiled[text].findall(doc, filter_context=fctx))):
+                    o = impl.call(fn)
+                    ctx.evaluation()
+                    ctx.count("membership_tests_against_long_arrays_that_come_and_go")
+                    if not o.ok or o.value != want:
+                        ctx.violation("membership-in-a-long-array-answered-from-another-array", {"long_arrays": True}, {"text": text, "route": route, "array_length": n, "document_number": k, "got": o.desc() if not o.ok else repr(o.value)[:200], "expected": repr(want)[:200]})
+                        return
+            del doc, allowed, items, fctx
+            gc.collect()
+        # one array rewritten in place, keeping its length
+        doc = {"allowed": list(range(n)), "items": [5, n + 5, 2 * n + 5]}
+        for shift in (0, n, 2 * n, 0):
+            doc["allowed"][:] = list(range(shift, shift + n))
+            want = [x for x in doc["items"] if x in doc["allowed"]]
+            for text in ("$.items[?@ in $.allowed]", "$.items[?$.allowed contains @]"):
+                o = impl.call(lambda: compiled[text].findall(doc))
+                ctx.evaluation()
+                if not o.ok or o.value != want:
+                    ctx.violation("membership-in-a-long-array-answered-from-its-earlier-contents", {"long_arrays": True}, {"text": text, "array_length": n, "got": o.desc() if not o.ok else repr(o.value), "expected": repr(want)})
+                    return
+        ctx.cell("long_array_lengths", "length=%d" % n)
+
+
 def run(spec, ctx):
     install()
     r = ctx.rng
     extra = gen.CTX_DEFAULT
     if spec["kind"] == "directed":
         run_non_string_keys(ctx)
+        run_long_arrays(ctx)
     if spec["kind"] == "directed":
         def Q(root, *sels, typ="child"):
             return ["q", root, [[typ, [s]] for s in sels]]
@@ -284,6 +330,9 @@ def replay(case, ctx):
         return
     if case.get("non_string_keys"):
         run_non_string_keys(ctx)
+        return
+    if case.get("long_arrays"):
+        run_long_arrays(ctx)
         return
     if case.get("interleaved"):
         check_interleaved(ctx, case["ast"], case["text"], [tuple(x) for x in case["runs"]], case.get("class", "replay"))
